@@ -3,6 +3,7 @@
 P="$1"; shift
 R=/tmp/rw
 git -C $R checkout -q -- . ; git -C $R apply "$P" || { echo "patch does not apply"; exit 2; }
+export VERIF_OUT=/tmp/tryc_out
 for id in "$@"; do
   ( cd /verif && KYUPY_REPO=$R ./check "$id" ) > /tmp/tryc_$id.log 2>&1
   echo "== $id exit=$? : $(grep -c '^VIOLATION' /tmp/tryc_$id.log) violation line(s)"
